@@ -159,6 +159,7 @@ type Factory struct {
 	Pre        []*btcutil.Block // real blocks between the real genesis and abstract block 0 (catalogue mode: they provide mature coins)
 	BaseHeight int32
 	Opts       NetOpts  // the options the parameters were made from (a node makes its own fresh copy with NodeParams)
+	Stats      map[string]int // what the random construction produced (reported as evidence)
 	MaxSpends  int      // at most this many random spends per block (0: no limit)
 	NoSpecial  bool     // the preamble creates no special coin kinds (small blocks for the pruned workloads)
 	ForceRule  []string // per block: when set, the catalogue entry to use instead of a random draw ("edge:<name>" for a valid block)
@@ -222,7 +223,7 @@ func NewFactory(sc *Scenario, o NetOpts, seed int64) *Factory {
 	f := &Factory{Sc: sc, Params: NewParams(base, o), Base: base, Opts: o, ForceRule: make([]string, sc.N+1),
 		Blocks: make([]*btcutil.Block, sc.N+1), ByHash: map[chainhash.Hash]int{},
 		rng: rand.New(rand.NewSource(seed)), utxo: make([]map[wire.OutPoint]Coin, sc.N+1),
-		Universe: map[wire.OutPoint]bool{}, SpendP: 0.6, DupP: 0.15, FeeP: 0.5, EdgeP: 0.5, RuleName: make([]string, sc.N+1)}
+		Universe: map[wire.OutPoint]bool{}, Stats: map[string]int{}, SpendP: 0.6, DupP: 0.15, FeeP: 0.5, EdgeP: 0.5, RuleName: make([]string, sc.N+1)}
 	f.Blocks[0] = btcutil.NewBlock(f.Params.GenesisBlock)
 	f.Blocks[0].SetHeight(0)
 	f.ByHash[*f.Params.GenesisHash] = 0
@@ -485,6 +486,10 @@ func (f *Factory) build(b int) {
 		bb.fees += fee
 		bb.txs = append(bb.txs, tx)
 		delete(bb.mine, cd.op)
+		f.Stats["spend_txs"]++
+		if len(tx.TxIn) > 1 {
+			f.Stats["multi_input_txs"]++
+		}
 		h := tx.TxHash()
 		for i, o := range tx.TxOut {
 			op := wire.OutPoint{Hash: h, Index: uint32(i)}
@@ -500,6 +505,7 @@ func (f *Factory) build(b int) {
 			child.AddTxOut(&wire.TxOut{Value: tx.TxOut[0].Value, PkScript: opTrue})
 			bb.txs = append(bb.txs, child)
 			delete(bb.mine, pop)
+			f.Stats["in_block_children"]++
 			ch := child.TxHash()
 			bb.mine[wire.OutPoint{Hash: ch}] = Coin{child.TxOut[0].Value, opTrue, false, height}
 			f.Universe[wire.OutPoint{Hash: ch}] = true
